@@ -42,7 +42,19 @@ var texts = []string{
 	// the same response key selected several times in one selection set, merged under variables
 	`query($f: Boolean = true) { a { id rs name } a @include(if: $f) { b { v } } a @skip(if: $f) { n nn } s }`,
 	`query($f: Boolean = true) { nodes { id __typename ... on A { rs name n } } nodes @include(if: $f) { ... on A { nn } } nodes @skip(if: $f) { ... on B { v } } }`,
+	// pairs of texts that differ only in white space where white space matters: inside a string
+	// value, inside a block string, and at the end of a comment
+	`{ echo(s: "a  b") }`,
+	`{ echo(s: "a b") }`,
+	"{ echo(s: \"\"\"x\n  y\"\"\") }",
+	`{ echo(s: """x y""") }`,
+	"{ s # and\n i }",
+	"{ s # and i\n }",
 }
+
+// textSibling: the text of the pool that is nearest to texts[i] (same text up to white space, or
+// up to one character)
+var textSibling = map[int]int{11: 12, 12: 11, 13: 14, 14: 13, 15: 16, 16: 15, 0: 7, 7: 0, 1: 8, 8: 1, 4: 6, 6: 4}
 
 var opNames = []string{"", "A", "B", "M", "Zzz"}
 var variables = []string{"", `{"f":false}`, `{"f":true}`, `{"n":2}`, `{"n":3,"f":false}`, `{"s":"x"}`, `{"x":7}`, `{"n":"bad"}`, `{}`, `null`, `"x"`, `[1,2]`, `5`}
@@ -255,6 +267,13 @@ func genReq(t *rapid.T, pin *Req) Req {
 		Ext:       rapid.IntRange(0, len(extensionsPool)-1).Draw(t, "ext"),
 		Header:    rapid.IntRange(0, len(echoHeaders)-1).Draw(t, "hdr"),
 		Accept:    rapid.SampledFrom([]string{"", "", "application/json", "application/graphql-response+json", "*/*"}).Draw(t, "accept"),
+	}
+	if pin != nil {
+		if sib, ok := textSibling[pin.Text]; ok && rapid.IntRange(0, 3).Draw(t, "sibling") == 0 {
+			// the nearest other text right after its neighbour, while that one is still cached
+			r.Transport, r.Text = pin.Transport, sib
+			return r
+		}
 	}
 	if pin != nil && rapid.IntRange(0, 2).Draw(t, "sticky") != 0 {
 		// stay on the predecessor's transport and text: that is where leaks would show
